@@ -54,6 +54,8 @@ type Task struct {
 	// skipUnlockYield: the last shard-level yield site was filtered out, so the
 	// unlock that follows it is not a preemption point either
 	SkipUnlockYield bool
+	// Notify: parked at Sim.NotifySite and not yet seen by the engine
+	Notify bool
 	// statistics
 	Steps int
 }
@@ -78,6 +80,10 @@ type Sim struct {
 	PanicTxt string
 	killed   bool
 	Start    time.Time
+	// NotifySite: parks at this site are counted in Notifies and flagged on the
+	// task, for the engine to log from the scheduler goroutine (-1: none)
+	NotifySite int
+	Notifies   int32
 	// schedRaceOff: the scheduler goroutine has synchronisation events disabled
 	schedRaceOff bool
 }
@@ -104,7 +110,7 @@ func (s *Sim) SchedRaceOn() {
 var S *Sim
 
 func New(d *Decider) *Sim {
-	s := &Sim{D: d, Start: time.Now()}
+	s := &Sim{D: d, Start: time.Now(), NotifySite: -1}
 	return s
 }
 
@@ -250,6 +256,12 @@ func Yield(site int, key uint64) {
 	}
 	t.Site, t.Key = site, key
 	t.SkipUnlockYield = false
+	if site == s.NotifySite {
+		// the engine wants to log this park; the task itself must not (it may
+		// have been woken by, and be running concurrently with, another task)
+		t.Notify = true
+		atomic.AddInt32(&s.Notifies, 1)
+	}
 	atomic.StoreInt32(&t.state, StParked)
 	park(t)
 }
